@@ -28,6 +28,13 @@ static long long poly(long long a, long long b) {
   return 30000 + a * a * a - 2 * a * a * b + 3 * a * b * b + 5 * b * b * b + 7 * a * a - 11 * a * b + 13 * b * b + 17 * a - 19 * b;
 }
 
+// "ppoly": polar rows sampled from a cubic without pure-u terms, continued through the pole by the half-turn reflection
+static long long pq(long long u, long long d) { return 30000 + 5 * d * d * d + 3 * u * d * d - 2 * u * u * d + 13 * d * d - 11 * u * d - 19 * d; }
+static long long pix_ppoly(long long x, long long y, long long W, long long H) {
+  long long Wh = W / 2, u = (x % Wh) - W / 4, sg = x < Wh ? 1 : -1, ds = (H - 1) - y;
+  return y <= 3 ? pq(u, sg * y) : ds <= 3 ? pq(u, sg * ds) : 30000;
+}
+
 struct Raster { int W, H; vector<unsigned short> p; double offset, scale; string name; };
 
 static void write_pgm(const Raster& r, const string& path, const string& hdr_override = "", long long nbytes = -1,
@@ -50,7 +57,7 @@ static void write_pgm(const Raster& r, const string& path, const string& hdr_ove
 static Raster make_raster(const string& kind, int W, int H) {
   Raster r; r.W = W; r.H = H; r.p.resize(size_t(W) * H); r.offset = -108; r.scale = 0.25; r.name = kind + to_string(W) + "x" + to_string(H);
   for (int y = 0; y < H; ++y) for (int x = 0; x < W; ++x)
-    r.p[size_t(y) * W + x] = (unsigned short)(kind == "grid" ? pix_grid(x, y) : poly(x - W / 2, y - (H - 1) / 2));
+    r.p[size_t(y) * W + x] = (unsigned short)(kind == "grid" ? pix_grid(x, y) : kind == "ppoly" ? pix_ppoly(x, y, W, H) : poly(x - W / 2, y - (H - 1) / 2));
   write_pgm(r, g_dir + "/" + r.name + ".pgm");
   return r;
 }
@@ -154,6 +161,16 @@ static void do_record(uint64_t seed, long long nhist) {
           cont = vt::q1(max(fabs(a1 - a2), fabs(b1 - b2)) / span, 1e-15L);
         }
         q.i("cont", cont);
+        // cubic, at a pole: a second evaluation at another longitude of the same cell (doc: the cubic is constrained to be
+        // independent of longitude at the poles); edgex = distance of lon from the nearest cell boundary (1e-12 cell units):
+        // on a boundary "the same cell" is not determined, the trace spec states the law away from it
+        if (cubic && fabs(lat) == 90) {
+          double cw = 360.0 / r.W, fx = lon / cw - floor(lon / cw);
+          double hp = (*obj)(lat, fx < 0.5 ? lon + 0.4 * cw : lon - 0.4 * cw);
+          q.i("pole", vt::q1(fabs(hp - h) / span, 1e-15L));
+          double fxx = Math::AngNormalize(lon) * r.W / 360.0;
+          q.i("edgex", vt::q1(fabs(fxx - nearbyint(fxx)), 1e-12L));
+        }
         // ConvertHeight inverse pair
         double hh = g.uni(-100, 9000);
         double e1 = obj->ConvertHeight(lat, lon, hh, Geoid::GEOIDTOELLIPSOID), e2 = obj->ConvertHeight(lat, lon, e1, Geoid::ELLIPSOIDTOGEOID);
@@ -166,6 +183,7 @@ static void do_record(uint64_t seed, long long nhist) {
         if (g.coin() && s > n) swap(s, n);
         if (g.range(0, 3) == 0) { s = plat - 1; n = plat + 1; w = plon - 1; e = plon + 1; }
         s = max(-90.0, s); n = min(90.0, n);
+        if (g.range(0, 5) == 0) { if (g.coin()) s = n; else n = s; }                    // zero-height request (south == north): not empty
         string res = guarded([&] { obj->CacheArea(s, w, n, e); });
         // requested area in eighth-cell units (floor/ceil so that containment can be judged conservatively)
         double rlon = r.W / 360.0, rlat = (r.H - 1) / 180.0;
@@ -197,10 +215,14 @@ static void do_record(uint64_t seed, long long nhist) {
   };
   for (auto& f : faults) for (int cubic = 0; cubic < 2; ++cubic) for (int ts = 0; ts < 2; ++ts) {
     write_pgm(r, g_dir + "/fault.pgm", f.hdr, f.nbytes, f.hdr.empty());
-    string res = guarded([&] { Geoid gg("fault", g_dir, cubic != 0, ts != 0); double h = gg(10, 20); (void) h; });
-    Rec q; q.str("e", "file").str("fault", f.name).b("cubic", cubic != 0).b("ts", ts != 0).str("out", res); q.emit();
+    // ctor: outcome of the constructor alone; out: outcome of constructor + one evaluation (= ctor if that is not "ok")
+    unique_ptr<Geoid> gg;
+    string ctor = guarded([&] { gg.reset(new Geoid("fault", g_dir, cubic != 0, ts != 0)); });
+    string res = ctor;
+    if (ctor == "ok") res = guarded([&] { double h = (*gg)(10, 20); (void) h; });
+    Rec q; q.str("e", "file").str("fault", f.name).b("cubic", cubic != 0).b("ts", ts != 0).str("ctor", ctor).str("out", res); q.emit();
   }
-  { string res = guarded([&] { Geoid gg("does-not-exist", g_dir); }); Rec q; q.str("e", "file").str("fault", "missing").b("cubic", true).b("ts", false).str("out", res); q.emit(); }
+  { string res = guarded([&] { Geoid gg("does-not-exist", g_dir); }); Rec q; q.str("e", "file").str("fault", "missing").b("cubic", true).b("ts", false).str("ctor", res).str("out", res); q.emit(); }
 }
 
 int main(int argc, char** argv) {
